@@ -30,6 +30,10 @@ type RangeParams struct {
 	// checkpoints, i.e. after the new assignment has been computed and before the session is up
 	DuringLoad bool `json:"during_load"`
 	File       bool `json:"file"` // file metadata backend: its Load returns every vBucket in the file, not only the requested ones
+	// ReAck (with Still): (vb0,2) is acknowledged BEFORE the rebalance and never saved (manual checkpointing: the
+	// rebalance does not save), so the re-opened session starts below it; the consumer acknowledges the same
+	// context again (a retried flush of its batch): the position reaches that event and the next save writes it
+	ReAck bool `json:"re_ack"`
 }
 
 type RaceParams struct {
@@ -80,6 +84,7 @@ func init() {
 				{Scenario: "c04_range", Params: mustJSON(RangeParams{Commit: true}), Bound: 0},
 				{Scenario: "c04_range", Params: mustJSON(RangeParams{Commit: false}), Bound: 0},
 				{Scenario: "c04_range", Params: mustJSON(RangeParams{Commit: true, Still: true}), Bound: 0},
+				{Scenario: "c04_range", Params: mustJSON(RangeParams{Commit: true, Still: true, ReAck: true}), Bound: 0, Note: "an acknowledgement that was never saved (manual mode) is repeated on the same context after the rebalance: the position reaches the event, the tracker is told, the next save writes it"},
 				{Scenario: "c04_range", Params: mustJSON(RangeParams{Commit: true, DuringLoad: true}), Bound: 0, Note: "the late acknowledgement and the commit arrive while the re-opened session loads its checkpoints (the new assignment is already in effect)"},
 				{Scenario: "c04_range", Params: mustJSON(RangeParams{Commit: false, DuringLoad: true}), Bound: 0},
 				{Scenario: "c04_range", Params: mustJSON(RangeParams{Commit: true, File: true}), Bound: 0, Note: "file metadata backend: Load returns every vBucket of the file, so the offset table of the shrunk session also has entries for vBuckets that moved away"},
@@ -260,6 +265,9 @@ func rangeMain(p RangeParams) {
 			}
 		}
 	}
+	if p.ReAck {
+		find(0, 2).Ctx.Ack()
+	}
 	e.Stream.Rebalance()
 	vrt.Sleep(1e9)
 	c.WaitIdle()
@@ -279,6 +287,23 @@ func rangeMain(p RangeParams) {
 		find(1, 2).Ctx.Ack()
 		if p.Commit {
 			e.Stream.Save()
+		}
+	}
+	if p.ReAck {
+		if got, _ := e.Tracked(0); got != 0 {
+			vrt.Failf("harness: vb0 resumed from %d after the rebalance, expected the stored position 0", got)
+		}
+		nTrack := len(e.Cons.TrackSeq[0])
+		find(0, 2).Ctx.Ack()
+		if got, _ := e.Tracked(0); got != 2 {
+			vrt.Failf("event (vb0,2) acknowledged again after the rebalance (its first acknowledgement was never saved): the tracked position is %d, want 2", got)
+		}
+		if len(e.Cons.TrackSeq[0]) == nTrack {
+			vrt.Failf("event (vb0,2) acknowledged again after the rebalance: not reported to the offset tracker")
+		}
+		e.Stream.Save()
+		if st, _ := e.StoredSeq(0); st != 2 {
+			vrt.Failf("event (vb0,2) acknowledged again after the rebalance: the next save stored %d for vb0, want 2", st)
 		}
 	}
 	offs, dirty, _ := e.Stream.GetOffsets()
